@@ -232,3 +232,25 @@ pub fn hazard_text(max_units: usize) -> BoxedStrategy<String> {
     .prop_map(|v| v.concat())
     .boxed()
 }
+
+/// hazards that do not attach to a preceding space (no Extend / SpacingMark / ZWJ first)
+pub const HAZARD_STARTS: &[&str] = &["🇩", "🇪", "🇩", "🇪", "\u{1100}", "\u{1161}", "\u{11a8}", "\u{1161}", "👩\u{200d}", "😀", "a"];
+
+/// clean text (single spaces) whose words mix pool clusters with segmentation hazards; words
+/// start with a unit that does not fuse with the space before it, so most texts have no mixed
+/// cluster but change their segmentation when a space disappears or appears
+pub fn hazard_clean_text(max_words: usize, max_word_len: usize) -> BoxedStrategy<String> {
+    proptest::collection::vec(
+        (
+            prop_oneof![1 => stable_cluster(), 6 => select(HAZARD_STARTS).prop_map(str::to_string)],
+            proptest::collection::vec(
+                prop_oneof![1 => stable_cluster(), 6 => select(HAZARD_STARTS).prop_map(str::to_string), 1 => select(HAZARD_FRAGS).prop_map(str::to_string)],
+                0..max_word_len,
+            ),
+        )
+            .prop_map(|(first, rest)| format!("{first}{}", rest.concat())),
+        0..=max_words,
+    )
+    .prop_map(|w| w.join(" "))
+    .boxed()
+}
